@@ -12,6 +12,8 @@ use simple_sds::verif_io::{self, MapCall};
 
 use crate::core::{catch, Outcome, Stats, Violation};
 use crate::payload::{gen_payload, DynVal, Family, GenCfg, Payload, ViewResult};
+#[allow(unused_imports)]
+use crate::payload::Leaf;
 use crate::rng::Rng;
 use crate::scratch;
 
@@ -64,6 +66,13 @@ pub struct MapViews {
     pub trunc: Trunc,
     /// Also request views at offsets outside the file.
     pub bad_offsets: bool,
+    /// Map the file through a symbolic link instead of its own path.
+    #[serde(default)]
+    pub via_symlink: bool,
+    /// Mutable maps only: rewrite the file in place through the map with different values of the same sizes
+    /// and create every view a second time through the same map object.
+    #[serde(default)]
+    pub rewrite: bool,
 }
 
 impl MapViews {
@@ -81,7 +90,8 @@ impl MapViews {
             let i = rng.below_usize(payloads.len());
             payloads[i].leaf = empty_variant(&payloads[i].leaf);
         }
-        MapViews { payloads, mutable: rng.chance(1, 4), trunc: Trunc::All, bad_offsets: !trunc_only }
+        let mutable = rng.chance(1, 4);
+        MapViews { payloads, mutable, trunc: Trunc::All, bad_offsets: !trunc_only, via_symlink: rng.chance(1, 5), rewrite: mutable && rng.chance(2, 3) }
     }
 
     pub fn run(&self, prop: &str) -> Outcome {
@@ -99,22 +109,30 @@ impl MapViews {
             ledger.push(bytes.len() / 8);
         }
         let total = bytes.len() / 8;
-        let path = scratch::file("views");
+        let data_path = scratch::file("views");
+        // The path handed to MemoryMap::new: the file itself or a symbolic link to it (the link's own length is unrelated).
+        let path = if self.via_symlink {
+            let link = scratch::file("views-link-with-a-rather-long-name");
+            let _ = std::fs::remove_file(&link);
+            if std::os::unix::fs::symlink(&data_path, &link).is_err() { data_path.clone() } else { out.stats.probe("file mapped through a symbolic link"); link }
+        } else { data_path.clone() };
         let mode = if self.mutable { MappingMode::Mutable } else { MappingMode::ReadOnly };
-        let result = self.run_inner(prop, &vals, &bytes, &ledger, total, &path, mode, &mut out.stats);
-        let _ = std::fs::remove_file(&path);
+        let result = self.run_inner(prop, &vals, &bytes, &ledger, total, &data_path, &path, mode, &mut out.stats);
+        let _ = std::fs::remove_file(&data_path);
+        if path != data_path { let _ = std::fs::remove_file(&path); }
         match result { Ok(()) => out, Err(viol) => out.fail(viol) }
     }
 
     #[allow(clippy::too_many_arguments)]
-    fn run_inner(&self, prop: &str, vals: &[Box<dyn DynVal>], bytes: &[u8], ledger: &[usize], total: usize, path: &Path, mode: MappingMode, stats: &mut Stats) -> Result<(), Violation> {
+    fn run_inner(&self, prop: &str, vals: &[Box<dyn DynVal>], bytes: &[u8], ledger: &[usize], total: usize, data_path: &Path, path: &Path, mode: MappingMode, stats: &mut Stats) -> Result<(), Violation> {
         let v = |clause: &str, site: &str, msg: String| Violation::new(prop, clause, site, msg);
         let desc = |i: usize| self.payloads[i].describe();
 
         if self.trunc == Trunc::None || self.trunc == Trunc::All {
             // The complete file.
-            std::fs::write(path, bytes).map_err(|e| v("harness", "write", e.to_string()))?;
-            let map = MemoryMap::new(path, mode).map_err(|e| v("map-error", "MemoryMap::new", format!("mapping a healthy file of {} bytes failed: {}", bytes.len(), e)))?;
+            std::fs::write(data_path, bytes).map_err(|e| v("harness", "write", e.to_string()))?;
+            #[allow(unused_mut)]
+            let mut map = MemoryMap::new(path, mode).map_err(|e| v("map-error", "MemoryMap::new", format!("mapping a healthy file of {} bytes failed: {}", bytes.len(), e)))?;
             stats.evaluations += 1;
             stats.steps += 2;
             if map.len() != total { return Err(v("map-len", "MemoryMap::len", format!("map.len() = {}, file has {} elements", map.len(), total))); }
@@ -148,8 +166,37 @@ impl MapViews {
                 }
                 stats.probe("offsets outside the file requested");
             }
+            if self.mutable && self.rewrite {
+                // Second use of the same map object: the file is rewritten in place (same sizes, other values, other
+                // string lengths where the padding allows), then every view is created again.
+                let sib: Vec<Payload> = self.payloads.iter().map(|p| p.sibling()).collect();
+                let mut svals: Vec<Box<dyn DynVal>> = Vec::new();
+                for p in sib.iter() { match catch(|| p.build()) { Ok(x) => svals.push(x), Err(m) => return Err(v("harness", "build", m)) } }
+                let same_sizes = svals.iter().zip(vals.iter()).all(|(a, b)| a.size_in_elements() == b.size_in_elements());
+                if same_sizes {
+                    let mut sbytes: Vec<u8> = Vec::new();
+                    for val in svals.iter() { match val.serialize_vec() { Ok(b) => sbytes.extend_from_slice(&b), Err(e) => return Err(v("harness", "serialize", e.to_string())) } }
+                    if sbytes.len() == bytes.len() {
+                        {
+                            let slice = unsafe { map.as_mut_slice() };
+                            for (i, w) in slice.iter_mut().enumerate() { *w = u64::from_le_bytes(sbytes[8 * i..8 * i + 8].try_into().unwrap()); }
+                        }
+                        for (i, val) in svals.iter().enumerate() {
+                            let tn = val.type_name();
+                            match catch(|| val.view(&map, ledger[i])) {
+                                Ok(ViewResult::Ok(off, len)) if off == ledger[i] && off + len == ledger[i + 1] => {},
+                                Ok(ViewResult::Ok(off, len)) => return Err(v("tiling", tn, format!("second view of structure {} after an in-place rewrite: map_offset {} + map_len {} != {}", i, off, len, ledger[i + 1]))),
+                                Ok(ViewResult::Differs(m)) => return Err(v("view-content-after-rewrite", tn, format!("structure {} ({}) was rewritten in place through the mutable map to {}; a view created afterwards through the same map still shows something else: {}", i, desc(i), sib[i].describe(), m))),
+                                Ok(ViewResult::Refused(m)) => return Err(v("view-refused", tn, format!("second view of structure {} after a valid in-place rewrite was refused: {}", i, m))),
+                                Err(p) => return Err(v("view-panic", tn, format!("second view of structure {}: {}", i, p))),
+                            }
+                        }
+                        stats.probe("views created again after an in-place rewrite through the same map");
+                    }
+                }
+            }
             drop(map);
-            let left = regions_of(path);
+            let left = regions_of(data_path);
             if !left.is_empty() { stats.probe("mapping left behind after drop (judged by C18, not here)"); }
         }
 
@@ -171,7 +218,7 @@ impl MapViews {
             Trunc::One(t) => if t < total { vec![t] } else { vec![] },
         };
         for t in cuts {
-            std::fs::write(path, &bytes[..8 * t]).map_err(|e| v("harness", "write", e.to_string()))?;
+            std::fs::write(data_path, &bytes[..8 * t]).map_err(|e| v("harness", "write", e.to_string()))?;
             stats.evaluations += 1;
             stats.steps += 2;
             stats.fault("M5-torn-file", 1);
@@ -239,7 +286,9 @@ impl MapViews {
         if self.payloads.len() > 1 { for i in 0..self.payloads.len() { let mut s = self.clone(); s.payloads.remove(i); out.push(s); } }
         if self.bad_offsets && self.trunc != Trunc::None { let mut s = self.clone(); s.trunc = Trunc::None; out.push(s); }
         if self.bad_offsets { let mut s = self.clone(); s.bad_offsets = false; out.push(s); }
-        if self.mutable { let mut s = self.clone(); s.mutable = false; out.push(s); }
+        if self.mutable { let mut s = self.clone(); s.mutable = false; s.rewrite = false; out.push(s); }
+        if self.rewrite { let mut s = self.clone(); s.rewrite = false; out.push(s); }
+        if self.via_symlink { let mut s = self.clone(); s.via_symlink = false; out.push(s); }
         for i in 0..self.payloads.len() { for p in self.payloads[i].simpler() { if p.mappable() { let mut s = self.clone(); s.payloads[i] = p; out.push(s); } } }
         if let Trunc::One(t) = self.trunc { for tt in [0, t / 2, t.saturating_sub(1)] { if tt < t { let mut s = self.clone(); s.trunc = Trunc::One(tt); out.push(s); } } }
         out
@@ -321,6 +370,8 @@ impl MapLife {
                 20 => FileSpec::Dir,
                 21 => FileSpec::Unlinked(*rng.pick(&[8u64, 4096, 4104, 32776])),
                 1 | 4 if big => FileSpec::Sparse(*rng.pick(&[64u64 << 20, (64 << 20) + 4104, 1 << 30, 1 << 30, (5u64 << 30) + 4104])),
+                // Tens of megabytes (where huge-page or chunked mapping strategies start), cheap because sparse.
+                1 => FileSpec::Sparse(*rng.pick(&[(16u64 << 20) + 3 * 4096 + 40, 16 << 20, (32 << 20) + 8, (64 << 20) + 4104])),
                 2 => FileSpec::Size(8 * rng.range(0, 5000)),
                 3 => FileSpec::Size(rng.range(1, 9000)),
                 _ => FileSpec::Size(*rng.pick(&sizes)),
